@@ -8,6 +8,7 @@ each returned entry equals the oracle written from the statement.
 import itertools
 import random
 import time
+from fractions import Fraction
 
 import z3
 
@@ -181,10 +182,15 @@ sys.exit(1 if bad else 0)
 '''
 
 
-def _replay_src(mode, rxs, ks, conc, keys, cstr, checks, m):
+def _replay_src(mode, rxs, ks, conc, keys, cstr, checks, m, generic=False):
     crx = [tuple(concretize(m, d) for d in rx) for rx in rxs]
     cks = concretize(m, ks)
     cconc = concretize(m, conc)
+    if generic:
+        # the path left the symbolic domain (wrapper exception): the solver's values were never constrained by the code, so the witness
+        # is a generic point instead (distinct positive concentrations and rate constants; nothing vanishes by accident)
+        cks = [Fraction(j + 2) for j in range(len(cks))]
+        cconc = {k_: Fraction(i + 2, 3) for i, k_ in enumerate(cconc)}
     ccstr = None
     if cstr:
         ccstr = (model_value(m, cstr[0].t), concretize(m, cstr[1]))
@@ -256,7 +262,7 @@ def ob_single(pattern, keys, lo, hi, checks, seed=0, twin=False):
 def _viol(o, mode, rxs, ks, conc, keys, cstr, checks, obid):
     vs = []
     for p, m, g in o.failed[:3]:
-        src, crx = _replay_src(mode, rxs, ks, conc, keys, cstr, checks, m)
+        src, crx = _replay_src(mode, rxs, ks, conc, keys, cstr, checks, m, generic=(p.kind == "exc" and wrapper_exc(p.value)))
         vs.append(dict(key="%s:%s" % (obid, "exc" if p.kind == "exc" else "value"),
                        desc="%s: structure %s ks=%s conc=%s%s" % (mode, crx, concretize(m, ks), concretize(m, conc),
                                                                   (" raised %r" % (p.value,)) if p.kind == "exc" else ""),
@@ -515,5 +521,13 @@ def tasks(tier, seed):
     for i, ch in enumerate(chunks(systems, 8 if tier == "quick" else 32)):
         ts.append(dict(id="C03.struct.system.%02d" % i, fn="task_system",
                        kwargs=dict(pattern_sets=ch, keys=keys, lo=1, hi=2, label="struct"), timeout=3000))
+    # LARGE structures (sizes the generated ones never reach): a hub species that takes part in 9 / 17 reactions, and a system of 26
+    # reactions one of which has inactive reactants and products; unit coefficients, symbolic concentrations and rate constants
+    def hub(n_):
+        return [(("H", "A%d" % i), ("P%d" % i,), (), ()) for i in range(n_)]
+    big = [(("F%d" % i,), ("G%d" % i,), (), ()) for i in range(25)] + [(("X",), ("Z",), ("Y",), ("W",))]
+    for label_, sys_ in (("hub9", hub(9)), ("hub17", hub(17)), ("big26", big)):
+        ks_ = sorted(set(k_ for pt in sys_ for grp in pt for k_ in grp))
+        ts.append(dict(id="C03.large.%s" % label_, fn="task_system", kwargs=dict(pattern_sets=[sys_], keys=ks_, lo=1, hi=1, label="large"), timeout=3000))
     ts.append(dict(id="C03.exact_arithmetic", fn="task_exact", kwargs={}, timeout=600))
     return ts
